@@ -104,12 +104,16 @@ void harness_copy_swap(void)
 	VASSERT(tl_scount(&SN1, &w) == in_old && tl_stotal(&SN1) == tl_stotal(&SO0), "C06 copy: the live table is not modified");
 
 	struct trie_node *o4 = OLD.ipv4, *o6 = OLD.ipv6, *n4 = NEW.ipv4, *n6 = NEW.ipv6;
+#ifndef VERIF_NATIVE
 	unsigned int wo = vl_wr_sections[vl_slot(&OLD.lock)], wn = vl_wr_sections[vl_slot(&NEW.lock)];
+#endif
 
 	pfx_table_swap(&OLD, &NEW);
 	VASSERT(OLD.ipv4 == n4 && OLD.ipv6 == n6 && NEW.ipv4 == o4 && NEW.ipv6 == o6, "C06 swap: both roots of both tables are exchanged");
+#ifndef VERIF_NATIVE /* the lock model's ghost counters exist only under CBMC; the native replay uses real rwlocks */
 	VASSERT(vl_wr_sections[vl_slot(&OLD.lock)] == wo + 1 && vl_wr_sections[vl_slot(&NEW.lock)] == wn + 1,
 		"C06 swap: one write section on each table covers the exchange");
 	VASSERT(!vl_held(&OLD.lock) && !vl_held(&NEW.lock), "swap: locks released");
+#endif
 	VWITNESS("copy_swap end");
 }
